@@ -556,13 +556,8 @@ def oracle_select(chk, case, impl, plain_ids):
                     want.append(u)
             want_s = ",".join(str(i) for i in want) if want else "-"
             if impl != want_s:
-                parentless = kind == "fn" and any(doc.parent[i] is None for i in res)
-                if parentless and "N" in impl.split(","):
-                    chk.failure("roots=True on parentless nodes: returned %s, ultimate ancestors are %s" % (impl, want_s),
-                                case, finding="roots-parentless-none")
-                    chk.count("oracle:roots-parentless-none")
-                else:
-                    chk.failure("roots=True returned %s, de-duplicated ultimate ancestors of %s are %s" % (impl, got_plain, want_s), case)
+                chk.failure("roots=True returned %s, de-duplicated ultimate ancestors (a parentless node is its own) of %s are %s"
+                            % (impl, got_plain, want_s), case)
 
 
 def oracle_bool(chk, case, t, c):
@@ -786,7 +781,7 @@ def witness_nested():
 
 
 def witness_parentless():
-    """Lean: roots_parentless_witness — select(compile_queries('a'), [Entry('a')], roots=True)"""
+    """Lean: roots_parentless_regression — select(compile_queries('a'), [Entry('a')], roots=True)"""
     return {"start": "fn", "docs": [{"id": 0, "name": "a", "attrs": [], "children": []}], "via_find": False,
             "steps": [["S", False, True, [["qn", ["lit", "a"]]]]]}
 
@@ -854,12 +849,13 @@ def run(chk):
     chk.witnesses.append({"deep-nested-order": a})
     if a == "4,3":
         chk.finding_reproduced("deep-nested-order")
+    # regression of fix 9796838 (was the known finding roots-parentless-none): the node itself is returned
     w = witness_parentless()
     tops, ident, _k = build_entries(w["docs"])
     a, _ = run_impl(w, tops, ident)
-    chk.witnesses.append({"roots-parentless-none": a})
-    if a == "N":
-        chk.finding_reproduced("roots-parentless-none")
+    chk.witnesses.append({"roots-parentless (fixed 9796838)": a})
+    if a != "0":
+        chk.failure("select(compile_queries('a'), [Entry('a')], roots=True) returned %s instead of the entry itself" % a, w)
 
     BATCH = 5000      # bounded memory: generate, run, compare and judge batch by batch
 
